@@ -487,7 +487,8 @@ def run(ctx):
         "be caught inside the loop by a handler that does not leave it; nothing may escape the thread function. The rule "
         "reasons about exception classes, not bytes, so it covers every frame. The address filter of the raw link layer "
         "is decided as a guard fact on the callback call.")
-    ctx.declined = ["state equivalence after a discarded frame ('as if never received')", "termination of third-party parsers"]
+    ctx.declined = ["full state equivalence after a discarded frame ('as if never received') - decided only as: no content-dependent "
+                    "rejection after the first state change in a GN receive handler", "termination of third-party parsers"]
     wiring = Wiring(P)
     for n in wiring.notes:
         ctx.note(n)
@@ -672,6 +673,24 @@ CONTENT_ERRORS = ("DecodeError", "DecapError", "ValueError", "KeyError", "IndexE
                   "TypeError", "OverflowError", "AssertionError", "UnicodeDecodeError", "AttributeError")
 
 
+# failures inside these functions concern a locally buffered REQUEST that is re-issued (LS reply flush), not the received frame
+LOCAL_REQUEST_FUNCS = {"gn_data_request_guc", "gn_data_request_gbc", "gn_data_request_shb", "gn_data_request"}
+
+
+def _origin_function(P, witness: str):
+    """The function containing the raise site a may-raise witness ends in (last `file:line` of the witness)."""
+    locs = re.findall(r"(src/[\w/\.]+\.py):(\d+)", witness)
+    if not locs:
+        return None
+    rel, line = locs[-1][0], int(locs[-1][1])
+    best = None
+    for f in P.iter_funcs():
+        if f.module.rel == rel and f.node.lineno <= line <= (f.node.end_lineno or f.node.lineno):
+            if best is None or f.node.lineno >= best.node.lineno:
+                best = f
+    return best
+
+
 def _positions(fi):
     """node id -> list of (id(block list), index) from the function body down to the statement holding the node."""
     pos = {}
@@ -731,6 +750,15 @@ def discard_before_state(ctx, mr):
         n_handlers += 1
         first, wset = mut[0]
         late = []
+        # functions already evaluated on this frame BEFORE the first state change: their content errors (which depend only on
+        # the frame's own fields - for the geometric function: sub-type and area, tied to the packet by C07.area-from-packet)
+        # have been raised by then, a second evaluation on the same frame cannot raise them
+        prevalidated = set()
+        for c in calls:
+            if c is first or _after(pos, first, c) or not _after(pos, c, first):
+                continue
+            for t in mr.call_effect(fi, c)[0]:
+                prevalidated.add(t.qual)
         # calls after the first state change that can still raise a content error not caught inside the handler
         for c in calls:
             if c is first or not _after(pos, first, c):
@@ -743,6 +771,11 @@ def discard_before_state(ctx, mr):
             for e, wit in exc.items():
                 base = e.split(".")[-1]
                 if base not in CONTENT_ERRORS and e not in CONTENT_ERRORS:
+                    continue
+                origin = _origin_function(P, wit)
+                if origin is not None and origin.qual in prevalidated:
+                    continue
+                if origin is not None and origin.name in LOCAL_REQUEST_FUNCS:
                     continue
                 caught = False
                 for t_, _k in fl.enclosing_handlers(c):
